@@ -51,6 +51,8 @@ func (e *Envelope) Sign(req *signature.SignRequest) ([]byte, error) {
 	// validate certificate chain
 	content, err := e.Envelope.Content()
 	if err != nil {
+		// the internal envelope already holds the rejected signature
+		e.Raw = nil
 		return nil, err
 	}
 	if err := validateCertificateChain(
@@ -58,6 +60,8 @@ func (e *Envelope) Sign(req *signature.SignRequest) ([]byte, error) {
 		&content.SignerInfo.SignedAttributes.SigningTime,
 		content.SignerInfo.SignatureAlgorithm,
 	); err != nil {
+		// the internal envelope already holds the rejected signature
+		e.Raw = nil
 		return nil, err
 	}
 
